@@ -485,12 +485,12 @@ def run_case(case):
     if case["kind"] == "expr":
         def comp():
             return pt.Compilation(case["build"](), getattr(pt.Mode, cfg["mode"]), version=cfg["version"],
-                                  assemble_constants=cfg["assemble_constants"], optimize=opt())
+                                  assemble_constants=cfg["assemble_constants"], optimize=opt(), assembly_type_track=cfg.get("type_track", True))
         def plain():
             return [comp().compile(with_sourcemap=False).teal]
         def plain2():
             return [pt.compileTeal(case["build"](), getattr(pt.Mode, cfg["mode"]), version=cfg["version"],
-                                   assembleConstants=cfg["assemble_constants"], optimize=opt())]
+                                   assembleConstants=cfg["assemble_constants"], optimize=opt(), assembly_type_track=cfg.get("type_track", True))]
         def mapped(a):
             r = comp().compile(with_sourcemap=True, teal_filename="c15.teal", annotate_teal=a["annotate"],
                                annotate_teal_headers=a["headers"], annotate_teal_concise=a["concise"])
@@ -499,14 +499,14 @@ def run_case(case):
             ast = case["build"]()
             def c():
                 return pt.Compilation(ast, getattr(pt.Mode, cfg["mode"]), version=cfg["version"],
-                                      assemble_constants=cfg["assemble_constants"], optimize=opt())
+                                      assemble_constants=cfg["assemble_constants"], optimize=opt(), assembly_type_track=cfg.get("type_track", True))
             first = c().compile(with_sourcemap=False).teal
             r = c().compile(with_sourcemap=True, teal_filename="c15.teal", annotate_teal=a["annotate"],
                             annotate_teal_headers=a["headers"], annotate_teal_concise=a["concise"])
             ast2 = case["build"]()
             def c2():
                 return pt.Compilation(ast2, getattr(pt.Mode, cfg["mode"]), version=cfg["version"],
-                                      assemble_constants=cfg["assemble_constants"], optimize=opt())
+                                      assemble_constants=cfg["assemble_constants"], optimize=opt(), assembly_type_track=cfg.get("type_track", True))
             c2().compile(with_sourcemap=False)
             twice = c2().compile(with_sourcemap=False).teal
             return {"annotate": a, "teal": [r.teal], "maps": [dump_map(r.sourcemap)], "first": [first], "plain_twice": [twice]}
@@ -780,7 +780,8 @@ class Project:
         r, mode = self.r, self.mode
         version = r.choice([6, 7, 8, 8, 9, 10])
         return {"mode": mode, "version": version, "assemble_constants": r.random() < 0.35,
-                "optimize": r.random() < 0.3, "frame_pointers": r.choice([None, None, False]) if version >= 8 else None}
+                "optimize": r.random() < 0.3, "frame_pointers": r.choice([None, None, False]) if version >= 8 else None,
+                "type_track": r.random() >= 0.25}
 
     def build(self, size: int):
         r = self.r
